@@ -5,6 +5,8 @@
 (*   Read            read_event                                            *)
 (*   Flip(key)       config_mut(): toggle one switch between two calls     *)
 (*   Skip            read_to_end on the element whose Start was just read  *)
+(*   Stream(n, via)  Reader::stream(): n raw bytes taken from the source   *)
+(*                   through io::Read ("r") or fill_buf/consume ("b")      *)
 (* Every result is compared with a history-independent reference: a        *)
 (* function of the current position, the CURRENT configuration and the     *)
 (* TRUE nesting of the consumed prefix (computed from the declarative      *)
@@ -14,6 +16,7 @@ EXTENDS XmlLex, TLC, Json
 
 CONSTANTS L,          \* max number of tag-level fragments
           MaxFlips, MaxSkips,
+          MaxStreams, \* raw reads through Reader::stream() (0 = none; the reference invariants assume none)
           FlipKeys,   \* switches that may be toggled
           KnownDevs,  \* deviations of known findings: a second track runs with them (expectation `alt`)
           InitCfgs,   \* "default" | "four" (all settings of cen/aue/eee/tmn) | "trim"
@@ -33,14 +36,14 @@ Cfg0 == CASE InitCfgs = "default" -> {DefaultCfg}
           [] InitCfgs = "four" -> {[DefaultCfg EXCEPT !.cen = a, !.aue = b, !.eee = c, !.tmn = d] : a, b, c, d \in BOOLEAN}
           [] OTHER -> {[DefaultCfg EXCEPT !.tts = a, !.tte = b, !.eee = c] : a, b, c \in BOOLEAN}
 
-VARIABLES inp, cfg0, cfg, st, lastStart, nflips, nskips, done, last, hist, alt
-ovars == <<inp, cfg0, cfg, st, lastStart, nflips, nskips, done, last, hist, alt>>
+VARIABLES inp, cfg0, cfg, st, lastStart, nflips, nskips, nstreams, done, last, hist, alt
+ovars == <<inp, cfg0, cfg, st, lastStart, nflips, nskips, nstreams, done, last, hist, alt>>
 
 NoneObs == [k |-> "None", e |-> "", lo |-> 0, hi |-> 0, n |-> 0, xlo |-> 0, xhi |-> 0, after |-> 0]
 Init == /\ inp \in (TStrs(L) \cup OpsSeeds)
         /\ cfg \in Cfg0 /\ cfg0 = cfg
         /\ st = InitSt /\ lastStart = [lo |-> 0, hi |-> 0, fresh |-> FALSE]
-        /\ nflips = 0 /\ nskips = 0 /\ done = FALSE /\ last = [op |-> "none", o |-> NoneObs, pre |-> InitSt, c |-> cfg]
+        /\ nflips = 0 /\ nskips = 0 /\ nstreams = 0 /\ done = FALSE /\ last = [op |-> "none", o |-> NoneObs, pre |-> InitSt, c |-> cfg]
         /\ hist = <<>>
         /\ alt = [st |-> InitSt, ls |-> [lo |-> 0, hi |-> 0, fresh |-> FALSE], hist |-> <<>>]
 
@@ -72,7 +75,7 @@ Read == /\ ~done
                            ELSE [lastStart EXCEPT !.fresh = FALSE]
            /\ hist' = Append(hist, <<"read", Row(Obs(r), r.st.errpos)>>)
         /\ alt' = AltRead(alt, cfg)
-        /\ UNCHANGED <<inp, cfg0, cfg, nflips, nskips>>
+        /\ UNCHANGED <<inp, cfg0, cfg, nflips, nskips, nstreams>>
 
 Flip == /\ ~done /\ nflips < MaxFlips
         /\ \E key \in FlipKeys :
@@ -81,7 +84,7 @@ Flip == /\ ~done /\ nflips < MaxFlips
              /\ alt' = [alt EXCEPT !.hist = Append(alt.hist, <<"cfg", CfgBits(cfg'), Row([NoneObs EXCEPT !.k = "Cfg", !.after = BufferPosition(alt.st)], alt.st.errpos)>>)]
         /\ nflips' = nflips + 1
         /\ last' = [last EXCEPT !.op = "flip"]
-        /\ UNCHANGED <<inp, cfg0, st, lastStart, nskips, done>>
+        /\ UNCHANGED <<inp, cfg0, st, lastStart, nskips, nstreams, done>>
 
 SkipRow(r) ==
     IF r.ok THEN <<"Span", "", 0, 0, 0, 0, 0, BufferPosition(r.st), r.st.errpos, r.start, r.end, CfgBits(cfg)>>
@@ -96,9 +99,24 @@ Skip == /\ ~done /\ nskips < MaxSkips /\ lastStart.fresh
            /\ alt' = AltSkip(alt, cfg)
         /\ lastStart' = [lastStart EXCEPT !.fresh = FALSE]
         /\ nskips' = nskips + 1
-        /\ UNCHANGED <<inp, cfg0, cfg, nflips>>
+        /\ UNCHANGED <<inp, cfg0, cfg, nflips, nstreams>>
 
-Next == Read \/ Flip \/ Skip
+\* Reader::stream(): BinaryStream hands out the bytes that follow the reader's offset and advances the offset by
+\* exactly the number of bytes handed out (src/reader/mod.rs BinaryStream::read / consume); the parse state is untouched.
+StreamOf(s0, n) == [s0 EXCEPT !.off = Min2(s0.off + n, Len(inp))]
+RawRow(s0, s1) == Row([NoneObs EXCEPT !.k = "Raw", !.lo = s0.off, !.hi = s1.off, !.after = BufferPosition(s1)], s1.errpos)
+Stream == /\ ~done /\ nstreams < MaxStreams /\ st.ps # "Done"
+          /\ \E n \in {1, 3, 64}, via \in {"r", "b"} :
+               /\ st' = StreamOf(st, n)
+               /\ last' = [op |-> "stream", o |-> [NoneObs EXCEPT !.k = "Raw", !.lo = st.off, !.hi = st'.off, !.after = BufferPosition(st')], pre |-> st, c |-> cfg]
+               /\ hist' = Append(hist, <<"raw", n, RawRow(st, st'), via>>)
+               /\ alt' = [alt EXCEPT !.st = StreamOf(alt.st, n), !.ls = [alt.ls EXCEPT !.fresh = FALSE],
+                                     !.hist = Append(alt.hist, <<"raw", n, RawRow(alt.st, StreamOf(alt.st, n)), via>>)]
+          /\ lastStart' = [lastStart EXCEPT !.fresh = FALSE]
+          /\ nstreams' = nstreams + 1
+          /\ UNCHANGED <<inp, cfg0, cfg, nflips, nskips, done>>
+
+Next == Read \/ Flip \/ Skip \/ Stream
 Spec == Init /\ [][Next]_ovars
 
 ---------------------------------------------------------------------------
@@ -130,15 +148,15 @@ RefRead(s0, c) ==
          IF tr = <<>> THEN NEv("Eof", 0, 0, 0, Len(inp)) ELSE Head(tr)
 
 Inv_ReadRef ==
-    last.op = "read" =>
+    (last.op = "read" /\ nstreams = 0) =>
         LET ref == RefRead(last.pre, last.c) IN
         \/ last.o = ref
         \* a Start produced by expanding <x/> : the reference stream has Start at the same place
         \/ (last.pre.ps = "Done" /\ last.o.k = "Eof")
 
 \* the machine's stack is the true nesting, whatever the history
-Inv_Nest == st.ps # "InsideEmpty" => st.opened = TrueNest(st.off)
-Inv_NestEmpty == st.ps = "InsideEmpty" => Front(st.opened) = TrueNest(st.off)
+Inv_Nest == (nstreams = 0 /\ st.ps # "InsideEmpty") => st.opened = TrueNest(st.off)
+Inv_NestEmpty == (nstreams = 0 /\ st.ps = "InsideEmpty") => Front(st.opened) = TrueNest(st.off)
 
 \* C12: the skip result, declaratively, from the transformed remaining stream
 \* (trim_text_start forced off, as documented): first End named nm at depth 0.
@@ -162,7 +180,7 @@ RefSkip(s0, c, nm) ==
          [ok |-> f.ok, e |-> f.e, end |-> f.end, after |-> f.after, start |-> start]
 
 Inv_SkipRef ==
-    last.op = "skip" =>
+    (last.op = "skip" /\ nstreams = 0) =>
         LET nm == Slice(inp, lastStart.lo, lastStart.hi)
             ref == RefSkip(last.pre, last.c, nm) IN
         IF ref.ok THEN /\ last.o.k = "Span" /\ last.o.lo = ref.start /\ last.o.hi = ref.end
@@ -172,6 +190,15 @@ Inv_SkipRef ==
                              /\ At(inp, ref.start - 1) = GT
                              /\ At(inp, ref.end) = LT /\ At(inp, ref.end + 1) = SLASH)
         ELSE last.o.k = "Err" /\ last.o.e = ref.e
+
+\* C08 with raw reads: the position moves by exactly the bytes handed out, they are the bytes at the old offset, and
+\* positions never pass the end of the input, whatever follows
+Inv_StreamTiling ==
+    /\ BufferPosition(st) <= Len(inp)
+    /\ last.op = "stream" =>
+          /\ last.o.hi - last.o.lo = st.off - last.pre.off
+          /\ last.o.lo = last.pre.off
+          /\ BufferPosition(st) - BufferPosition(last.pre) = last.o.hi - last.o.lo
 
 \* vacuity witness (run on a tiny instance): which operations were exercised
 Inv_Witness == last.op # "none" => PrintT(<<"WITNESS", ToJson(<<last.op, last.o.k>>)>>)
